@@ -37,7 +37,11 @@ RULE = ('seeded generator: produce requests with topics as bytes of length 0..30
         'size = bytes written, nothing stale or trailing); transport-level histories: ClientTimeoutSink -> KafkaSerializerSink -> '
         'KafkaTransportSink with its real send/receive loops on a virtual clock against a fake broker that answers on command: '
         'requests time out in flight / while queued / at the call, new requests on the same connection, late replies, several '
-        'replies flushed in one segment (all readable before the receive loop yields). '
+        'replies flushed in one segment (all readable before the receive loop yields) or split at arbitrary byte boundaries '
+        '(burst / one piece per scheduling round), the broker answering inside write(), deadlines hit exactly / same-deadline '
+        'timers fired in both orders / Deadline 0, callers that dispatch again or raise (Exception, gevent.Timeout) from inside '
+        'their reply / timeout / error callback, close + a new sink stack on the same slot, one or two connections (two '
+        'independent sink stacks in one process, also for the route histories; the same message object dispatched twice). '
         'non-trivial = the implementation produced bytes / a decoded value / a routing decision (no exception); distinct by '
         'canonical JSON of (case, observation)')
 TRUSTED = ['zlib.crc32 (the implementation uses it; the harness uses it as the CRC oracle and to cross-check Model/Crc32.v)',
@@ -59,7 +63,7 @@ MANIFEST = {
              'every encodable produce/metadata response and every history of sends and replies (no size or length bound) of the '
              'Gallina transcription of the Kafka v0 writer/readers and correlation-id table, against an independently written strict '
              'v0 request parser and reference response encoders; the transcription, the parser, the encoders and the bitwise CRC-32 '
-             'are compared with the real code, zlib.crc32 and an independent Python parser/encoder on ~1.4k (quick) / ~9k (thorough) '
+             'are compared with the real code, zlib.crc32 and an independent Python parser/encoder on ~1.5k (quick) / ~10.7k (thorough) '
              'generated inputs per run.'),
     'note': ('Trusted: Coq kernel; the correspondence harness (harness/props/c15.py) and its sampling; struct/BytesIO semantics as '
              'modelled in Model/Bytes.v; zlib.crc32; the reading of the Kafka 0.8 protocol guide. Topics/payloads are bytes. '
@@ -515,6 +519,8 @@ def _unj(d):
 
 def gen_route(r):
   scripted = r.random() < 0.4
+  nconn = r.choice([1, 1, 2])
+  sends = []
   ops = []
   nsend = 0
   tags_used = []
@@ -531,7 +537,13 @@ def gen_route(r):
         call = {'meta': [rtopic(r)]}
       else:
         call = {'other': r.choice(['Get', 'put', ''])}
-      op = {'op': 'send', 'k': nsend, 'call': call}
+      op = {'op': 'send', 'k': nsend, 'call': call, 'conn': r.randrange(nconn)}
+      if sends and r.random() < 0.1:            # the same message object dispatched again (a retry)
+        prev = r.choice(sends)
+        op['call'] = prev['call']
+        op['same_as'] = prev['k']
+        op['conn'] = prev['conn']
+      sends.append(op)
       if scripted:
         tk = r.random()
         if tags_used and tk < 0.15:
@@ -550,6 +562,7 @@ def gen_route(r):
         op['to'] = r.randrange(nsend)             # echo the correlation id found in that request frame
       elif tk < 0.9:
         op['corr'] = r.choice([0, 1, 2, 3, 4, 5, -1, 2 ** 31 - 1, -2 ** 31, r32(r)])
+        op['conn'] = r.randrange(nconn)
       else:
         op['short'] = bytes(r.randrange(256) for _ in range(r.randrange(0, 4))).hex()
       bk = r.random()
@@ -563,7 +576,7 @@ def gen_route(r):
       if r.random() < 0.1:
         op['mut'] = gen_mut(r)
       ops.append(op)
-  return {'kind': 'route', 'cid': r.choice(CIDS), 'pool': 'scripted' if scripted else 'real', 'ops': ops}
+  return {'kind': 'route', 'cid': r.choice(CIDS), 'pool': 'scripted' if scripted else 'real', 'conns': nconn, 'ops': ops}
 
 
 def gen_sequence(r):
@@ -598,35 +611,60 @@ def gen_sequence(r):
 
 
 def gen_transport(r):
-  """ClientTimeoutSink -> KafkaSerializerSink -> KafkaTransportSink (real send/receive loops) against a fake broker
-  that answers when told to, on a virtual clock: requests time out in flight or while still queued, new requests are
-  issued on the same connection, late replies arrive."""
+  """ClientTimeoutSink -> KafkaSerializerSink -> KafkaTransportSink (real send/receive loops) on one or two connections
+  against fake brokers that answer when told to, on a virtual clock: requests time out in flight, while still queued,
+  exactly at / just around their deadline; new requests on the same connection; late replies; several replies in one
+  segment; replies split at arbitrary byte boundaries; the broker answering before write() returns; callers that send
+  again or raise from inside their callback; close + re-open."""
+  nconn = r.choice([1, 1, 2])
   ops = []
+  sent = []
   nsend = 0
+
+  def put_call():
+    call = {'put': {'topic': rbytes_spec(r, r.choice([0, 1, 3, 8])), 'partition': r.choice([0, 1, 3, r32(r)]), 'acks': r.choice([1, 0, -1]),
+                    'payloads': [rbytes_spec(r, r.choice([0, 1, 10, 40])) for _ in range(r.choice([0, 1, 1, 2]))]}}
+    if r.random() < 0.04:
+      call['put']['acks'] = 2 ** 15
+    return call
+  timeouts = [None, 0.05, 0.1, 0.1, 0.5, 0.5, 5, 5, -1, 0]
   for _ in range(r.choice([3, 5, 7, 9, 12])):
     k = r.random()
     if k < 0.4 or nsend == 0:
-      call = {'put': {'topic': rbytes_spec(r, r.choice([1, 3, 8])), 'partition': r.choice([0, 1, 3, r32(r)]), 'acks': r.choice([1, 0, -1]),
-                      'payloads': [rbytes_spec(r, r.choice([0, 1, 10, 40])) for _ in range(r.choice([0, 1, 1, 2]))]}}
-      if r.random() < 0.04:
-        call['put']['acks'] = 2 ** 15
-      op = {'op': 'send', 'k': nsend, 'call': call, 'timeout': r.choice([None, 0.05, 0.1, 0.1, 0.5, 0.5, 5, 5, -1, 0])}
+      op = {'op': 'send', 'k': nsend, 'conn': r.randrange(nconn), 'call': put_call(), 'timeout': r.choice(timeouts)}
+      if r.random() < 0.05:
+        op['deadline0'] = True
       if r.random() < 0.15:
         op['nosettle'] = True
+      if r.random() < 0.12:
+        op['autoreply'] = True
+      if r.random() < 0.15:
+        op['raises'] = r.choice(['Exception', 'Timeout'])
+      sent.append(nsend)
+      if r.random() < 0.2:
+        op['then'] = {'k': 100 + nsend, 'call': put_call(), 'timeout': r.choice(timeouts)}
+        if r.random() < 0.2:
+          op['then']['raises'] = 'Exception'
+        sent.append(100 + nsend)
       nsend += 1
       ops.append(op)
     elif k < 0.65:
-      ops.append({'op': 'advance', 'dt': r.choice([0.01, 0.06, 0.06, 0.2, 0.2, 1, 10])})
-    elif k < 0.85 or nsend < 2:
-      ops.append({'op': 'reply', 'to': r.randrange(nsend)})
+      ops.append({'op': 'advance', 'dt': r.choice([0, 0.01, 0.05, 0.06, 0.1, 0.2, 0.4, 0.5, 1, 5, 10])})
+    elif k < 0.97 or nsend < 2:
+      op = {'op': 'reply', 'to': r.choice(sent) if (r.random() < 0.6 or len(sent) < 2) else r.sample(sent, min(len(sent), r.choice([2, 2, 3, 4])))}
+      if r.random() < 0.25:
+        op['split'] = r.choice([1, 1, 2, 3, 5, 7, 30])
+        if r.random() < 0.5:
+          op['slow'] = True
+      ops.append(op)
     else:
-      ops.append({'op': 'reply', 'to': r.sample(range(nsend), min(nsend, r.choice([2, 2, 3, 4])))})
-  rest = [k for k in r.sample(range(nsend), nsend) if r.random() < 0.6]
+      ops.append({'op': 'reopen', 'conn': r.randrange(nconn)})
+  rest = [k for k in r.sample(sent, len(sent)) if r.random() < 0.6]
   if len(rest) >= 2 and r.random() < 0.5:
-    ops.append({'op': 'reply', 'to': rest})            # the broker flushes everything it still owes in one segment
+    ops.append({'op': 'reply', 'to': rest, 'split': r.choice([None, None, 1, 4])})
   else:
     ops.extend({'op': 'reply', 'to': k} for k in rest)
-  return {'kind': 'transport', 'cid': r.choice(CIDS[:9]), 'ops': ops}
+  return {'kind': 'transport', 'cid': r.choice(CIDS[:9]), 'conns': nconn, 'tie': r.choice(['fifo', 'fifo', 'lifo']), 'ops': ops}
 
 
 def gen_cases(tier, seed):
@@ -752,6 +790,27 @@ def gen_cases(tier, seed):
         {'op': 'reply', 'to': 5},
         {'op': 'reply', 'to': 3},
     ]})
+  put1 = lambda t, part=0, pays=(): {'put': {'topic': hx(t), 'partition': part, 'acks': 1, 'payloads': [hx(x) for x in pays]}}
+  for tie in ('fifo', 'lifo'):
+    out.append({'kind': 'transport', 'cid': None, 'conns': 2, 'tie': tie, 'ops': [
+        # two connections, same tags on both; equal deadlines (fired in both orders); a deadline hit exactly
+        {'op': 'send', 'k': 0, 'conn': 0, 'timeout': 0.5, 'call': put1(b'a0')},
+        {'op': 'send', 'k': 1, 'conn': 1, 'timeout': 0.5, 'call': put1(b'b1', 1)},
+        {'op': 'send', 'k': 2, 'conn': 0, 'timeout': 0.5, 'call': put1(b'a2', 2, [b'x']), 'raises': 'Exception',
+         'then': {'k': 102, 'call': put1(b'a102', 3), 'timeout': 0}},
+        {'op': 'send', 'k': 3, 'conn': 1, 'timeout': 5, 'call': put1(b'b3', 4), 'autoreply': True,
+         'then': {'k': 103, 'call': put1(b'b103', 5), 'timeout': 5, 'raises': 'Timeout'}},
+        {'op': 'advance', 'dt': 0.25},
+        {'op': 'reply', 'to': [1], 'split': 1},
+        {'op': 'advance', 'dt': 0.25},          # now == deadline of 0 and 2 (1 already answered)
+        {'op': 'advance', 'dt': 0},             # the follow-up of 2 was issued with timeout 0
+        {'op': 'reply', 'to': [0, 103, 2, 102], 'split': 3, 'slow': True},
+        {'op': 'send', 'k': 4, 'conn': 0, 'deadline0': True, 'timeout': None, 'call': put1(b'', 0, [b''])},
+        {'op': 'reopen', 'conn': 0},
+        {'op': 'send', 'k': 5, 'conn': 0, 'timeout': 1, 'call': put1(b'a5')},
+        {'op': 'send', 'k': 6, 'conn': 1, 'timeout': 1, 'call': put1(b'b6')},
+        {'op': 'reply', 'to': [4, 6, 5]},
+    ]})
   for order in ([0, 1], [1, 0], [2, 0, 1]):
     out.append({'kind': 'transport', 'cid': None, 'ops': [
         {'op': 'send', 'k': 0, 'timeout': 5, 'call': {'put': {'topic': hx(b'first'), 'partition': 0, 'acks': 1, 'payloads': [hx(b'a')]}}},
@@ -807,6 +866,8 @@ def gen_cases(tier, seed):
       out.append(gen_sequence(r))
     else:
       out.append(gen_transport(r))
+  for i in range(150 if q else 1500):          # transport histories are cheap (small literals): a separate, denser stream
+    out.append(gen_transport(C.case_rng(seed, PID + '-transport', i)))
   return _spread(out)
 
 
@@ -987,21 +1048,39 @@ def _run_route(case):
     def AsyncProcessResponse(self, sink_stack, context, stream, msg):
       deliveries.append((context, stream, msg))
 
-  sink = _mk_sink(case.get('cid'))
-  pool = None
-  if case['pool'] == 'scripted':
-    pool = _ScriptedPool()
-    sink._tag_pool = pool
-  class _Provider(object):          # what SinkProvider hands to the serializer sink: CreateSink -> the transport sink
-    def CreateSink(self, properties):
-      return sink
+  # one KafkaSerializerSink -> KafkaTransportSink pair per connection, each built by its own constructor and used for
+  # the whole history (as in a real client); with two connections nothing may leak from one instance to the other
+  nconn = case.get('conns', 1)
+  sinks, pools, sers = [], [], []
+  for _c in range(nconn):
+    snk = _mk_sink(case.get('cid'))
+    pl = None
+    if case['pool'] == 'scripted':
+      pl = _ScriptedPool()
+      snk._tag_pool = pl
 
-  # the sink is built by its own constructor (one instance for the whole history, as in a real client)
-  ser = S['KafkaSerializerSink'](_Provider(), None, {'label': 'c15'})
+    class _Provider(object):          # what SinkProvider hands to the serializer sink: CreateSink -> the transport sink
+      def __init__(self, x):
+        self.x = x
+
+      def CreateSink(self, properties):
+        return self.x
+    sinks.append(snk)
+    pools.append(pl)
+    sers.append(S['KafkaSerializerSink'](_Provider(snk), None, {'label': 'c15'}))
+  msgs = {}
+  conn_of = {}
   term = Terminal()
   frames = {}          # k -> frame bytes put on the send queue
   out = []
   for op in case['ops']:
+    cn = op.get('conn', 0)
+    if op['op'] == 'reply' and 'to' in op:
+      cn = conn_of.get(op['to'], cn)      # the broker answers on the connection the request came in on
+    cn = min(cn, nconn - 1)
+    if op['op'] == 'send':
+      conn_of[op['k']] = cn
+    sink, pool, ser = sinks[cn], pools[cn], sers[cn]
     nq = len(sink._send_queue.items)
     nd = len(deliveries)
     if op['op'] == 'send':
@@ -1013,6 +1092,9 @@ def _run_route(case):
         msg = S['MethodCallMessage'](None, '__metadata', [expand(t) for t in call['meta']], {})
       else:
         msg = S['MethodCallMessage'](None, call['other'], [], {})
+      if op.get('same_as') is not None and op['same_as'] in msgs:
+        msg = msgs[op['same_as']]       # the very same message object is dispatched again (as KafkaRouterSink does on a retry)
+      msgs[op['k']] = msg
       stack = S['ClientMessageSinkStack']()
       stack.Push(term, op['k'])
       if pool is not None:
@@ -1037,6 +1119,7 @@ def _run_route(case):
         o['tag'] = msg.properties.get('__Tag')
         o['queued'] = len(new_q)
         o['delivered'] = len(new_d)
+      o['conn'] = cn
       out.append(o)
     else:
       if 'short' in op:
@@ -1078,6 +1161,7 @@ def _run_route(case):
           o['err'] = type(m.error).__name__
         else:
           o['value'] = _canon_value(m.return_value)
+      o['conn'] = cn
       out.append(o)
   return {'ops': out}
 
@@ -1091,16 +1175,37 @@ def _broker_reply(frame, k):
 
 
 def _run_transport(case):
+  """ClientTimeoutSink -> KafkaSerializerSink -> KafkaTransportSink (real loops) x `conns` connections, fake brokers,
+  virtual clock.  Returns an ordered event log per operation:
+    ['s', conn, k, now]                 a caller issues request k
+    ['q', conn, k, frame, tag]          frame put on the send queue
+    ['w', conn, k|None, frame]          frame arrived at the broker (k: which queued request it is, bytewise)
+    ['b', conn, k, data]                the broker emits its reply for request k
+    ['p', conn, data]                   _ProcessReply starts on a received reply
+    ['d', k, via, delivery, written]    caller k's terminal sink receives a result (via reply/timer/send/close)
+    ['x', k, exc, by_callback]          AsyncProcessRequest raised
+    ['tx', exc, by_callback]            a timer action raised
+    ['life', conn]                      the connection was closed and re-opened
+  """
   import gevent
   import gevent.queue
   import scales.sink as ssink
   import scales.mux.sink as msink
   from scales.message import Deadline
   S = _S
+  nconn = case.get('conns', 1)
   clock = {'now': 1000.0, 'seq': 0}
   timers = []
-  queued = []            # frames put on the send queue (in order)
-  deliveries = []        # (k, msg) seen by the callers
+  log = []
+  ctx = ['top']
+  cur = []
+  state = {'cb_raised': 0}
+  specs = {}
+  for op in case['ops']:
+    if op['op'] == 'send':
+      specs[op['k']] = op
+      if op.get('then'):
+        specs[op['then']['k']] = dict(op['then'], conn=op.get('conn', 0))
 
   class FakeTimerQueue(object):
     def Schedule(self, deadline, action):
@@ -1119,19 +1224,35 @@ def _run_transport(case):
       return clock['now']
 
   class RecQueue(gevent.queue.Queue):
+    conn = None
+
     def put(self, item, *a, **kw):
-      queued.append(bytes(item[0]))
+      k = cur[-1] if cur else None
+      log.append(['q', self.conn, k, bytes(item[0]).hex(), item[1].get('__Tag')])
+      if k is not None and self.conn is not None:
+        socks[self.conn].frame_of[k] = bytes(item[0])
+        socks[self.conn].order.append(k)
       return gevent.queue.Queue.put(self, item, *a, **kw)
 
   class BrokerSocket(object):
     host, port = 'fakebroker', 9092
 
-    def __init__(self):
+    def __init__(self, conn):
+      self.conn = conn
+      self.reset()
+      self.raw = b''
+      self.framed = b''
+
+    def reset(self):
       self.to_client = gevent.queue.Queue()
       self.rbuf = b''
       self.wbuf = b''
-      self.received = []      # complete frames (with size prefix) in arrival order
-      self.raw = b''
+      self.order = []        # queued requests not yet seen on the wire
+      self.frame_of = {}
+      self.written = set()
+      self.replied = set()
+      self.sending = False
+      self.deferred = []
 
     def open(self):
       pass
@@ -1149,8 +1270,34 @@ def _run_transport(case):
         sz, = struct.unpack('!i', self.wbuf[:4])
         if sz < 0 or len(self.wbuf) < 4 + sz:
           break
-        self.received.append(self.wbuf[:4 + sz])
-        self.wbuf = self.wbuf[4 + sz:]
+        f, self.wbuf = self.wbuf[:4 + sz], self.wbuf[4 + sz:]
+        self.framed += f
+        hit = next((j for j, kk in enumerate(self.order) if self.frame_of[kk] == f), None)
+        kk = None
+        if hit is not None:
+          kk = self.order[hit]
+          del self.order[:hit + 1]
+          self.written.add(kk)
+        log.append(['w', self.conn, kk, f.hex()])
+        if kk is not None and specs.get(kk, {}).get('autoreply'):
+          d = self.reply_for(kk)           # the broker answers before write() returns
+          if d is not None:
+            if self.sending:               # ... but never in the middle of another reply it is still transmitting
+              self.deferred.append(struct.pack('!i', len(d)) + d)
+            else:
+              self.to_client.put(struct.pack('!i', len(d)) + d)
+
+    def reply_for(self, kk):
+      f = self.frame_of.get(kk)
+      if f is None or kk not in self.written or kk in self.replied:
+        return None
+      try:
+        data = _broker_reply(f, kk)
+      except (ParseError, IndexError, KeyError):
+        return None
+      self.replied.add(kk)
+      log.append(['b', self.conn, kk, data.hex()])
+      return data
 
     def read(self, sz):
       if not self.rbuf:
@@ -1167,12 +1314,34 @@ def _run_transport(case):
         buf += chunk
       return buf
 
+  def canon_delivery(m):
+    if m is None:
+      return {'value': {'none': True}}
+    if m.error is not None:
+      return {'err': type(m.error).__name__}
+    return {'value': _canon_value(m.return_value)}
+
+  class CallbackError(Exception):
+    pass
+
   class Terminal(S['ClientMessageSink']):
     def AsyncProcessRequest(self, sink_stack, msg, stream, headers):
       raise NotImplementedError()
 
     def AsyncProcessResponse(self, sink_stack, context, stream, msg):
-      deliveries.append((context, msg))
+      k = context
+      sp = specs.get(k, {})
+      sock = socks[min(sp.get('conn', 0), nconn - 1)]
+      log.append(['d', k, ctx[-1], canon_delivery(msg), k in sock.written])
+      then = sp.get('then')
+      if then and k not in done_then:
+        done_then.add(k)
+        do_send(then['k'])                      # re-entrancy: the caller dispatches again from inside its callback
+      if sp.get('raises'):
+        state['cb_raised'] += 1
+        if sp['raises'] == 'Timeout':
+          raise gevent.Timeout(0.001)
+        raise CallbackError('caller %r callback fails' % k)
 
   class Provider(object):
     def __init__(self, sink):
@@ -1182,116 +1351,164 @@ def _run_transport(case):
       return self.sink
 
   def settle():
-    for _ in range(12):
+    for _ in range(14):
       gevent.sleep(0)
 
-  def canon_delivery(k, m):
-    if m is None:
-      return {'k': k, 'value': {'none': True}}
-    if m.error is not None:
-      return {'k': k, 'err': type(m.error).__name__}
-    return {'k': k, 'value': _canon_value(m.return_value)}
+  def do_send(k):
+    sp = specs[k]
+    c = min(sp.get('conn', 0), nconn - 1)
+    p = sp['call']['put']
+    msg = _put_msg(expand(p['topic']), [expand(x) for x in p['payloads']], p['acks'], p['partition'])
+    if sp.get('deadline0'):
+      msg.properties[Deadline.KEY] = 0
+    elif sp.get('timeout') is not None:
+      msg.properties[Deadline.KEY] = clock['now'] + sp['timeout']
+    stack = S['ClientMessageSinkStack']()
+    stack.Push(term, k)
+    log.append(['s', c, k, clock['now']])
+    cur.append(k)
+    ctx.append('send')
+    raised0 = state['cb_raised']
+    try:
+      tops[c].AsyncProcessRequest(stack, msg, None, {})
+    except (Exception, gevent.Timeout) as e:
+      log.append(['x', k, type(e).__name__, state['cb_raised'] > raised0])
+    finally:
+      ctx.pop()
+      cur.pop()
 
+  def open_conn(c):
+    tr = transports[c]
+    tr.Open().get()
+    tr._send_queue.conn = c
+    orig = type(tr)._ProcessReply
+
+    def process_reply(stream, _tr=tr, _c=c):
+      log.append(['p', _c, bytes(stream.getvalue()).hex()])
+      ctx.append('reply')
+      try:
+        return orig(_tr, stream)
+      finally:
+        ctx.pop()
+    tr._ProcessReply = process_reply
+
+  hub = gevent.get_hub()
   saved = (ssink.GLOBAL_TIMER_QUEUE, ssink.time, msink.Queue)
+  saved_stream = None
+  try:
+    saved_stream = hub.exception_stream
+    hub.exception_stream = None                  # callbacks raise on purpose inside greenlets
+  except Exception:
+    saved_stream = None
   ssink.GLOBAL_TIMER_QUEUE = FakeTimerQueue()
   ssink.time = FakeTime
   msink.Queue = RecQueue
-  sock = BrokerSocket()
-  transport = None
+  socks, transports, tops = [], [], []
+  done_then = set()
+  term = None
   out = []
   try:
-    transport = S['KafkaTransportSink'](sock, 'c15')
-    if case.get('cid') is not None:
-      transport.CLIENT_ID = case['cid']
-    props = {'label': 'c15'}
-    ser = S['KafkaSerializerSink'](Provider(transport), None, props)
-    top = ssink.ClientTimeoutSink(Provider(ser), None, props)
-    transport.Open().get()
     term = Terminal()
-    frame_of = {}          # k -> frame queued for that request
-    order = []             # requests in send-queue order that have not been seen on the wire yet
-    written = {}           # k -> index in sock.received
-    replied = set()
+    props = {'label': 'c15'}
+    def make_conn(c):
+      sock = BrokerSocket(c)
+      tr = S['KafkaTransportSink'](sock, 'c15')
+      if case.get('cid') is not None:
+        tr.CLIENT_ID = case['cid']
+      ser = S['KafkaSerializerSink'](Provider(tr), None, props)
+      top = ssink.ClientTimeoutSink(Provider(ser), None, props)
+      if c < len(socks):
+        sock.raw, sock.framed = socks[c].raw, socks[c].framed     # wire accounting continues over the lives of a slot
+        socks[c], transports[c], tops[c] = sock, tr, top
+      else:
+        socks.append(sock)
+        transports.append(tr)
+        tops.append(top)
+      open_conn(c)
+    for c in range(nconn):
+      make_conn(c)
 
-    def note_written(start):
-      ks = []
-      for i in range(start, len(sock.received)):
-        hit = next((j for j, kk in enumerate(order) if frame_of[kk] == sock.received[i]), None)
-        if hit is None:
-          ks.append(None)
-        else:
-          kk = order[hit]
-          del order[:hit + 1]
-          written[kk] = i
-          ks.append(kk)
-      return ks
     for op in case['ops']:
-      nq, nd, nr = len(queued), len(deliveries), len(sock.received)
-      o = {}
+      n0 = len(log)
       if op['op'] == 'send':
-        p = op['call']['put']
-        msg = _put_msg(expand(p['topic']), [expand(x) for x in p['payloads']], p['acks'], p['partition'])
-        if op.get('timeout') is not None:
-          msg.properties[Deadline.KEY] = clock['now'] + op['timeout']
-        stack = S['ClientMessageSinkStack']()
-        stack.Push(term, op['k'])
-        try:
-          top.AsyncProcessRequest(stack, msg, None, {})
-        except Exception as e:
-          o['exc'] = type(e).__name__
-        if len(queued) == nq + 1:
-          frame_of[op['k']] = queued[nq]
-          order.append(op['k'])
-          o['tag'] = msg.properties.get('__Tag')
+        do_send(op['k'])
         if not op.get('nosettle'):
           settle()
       elif op['op'] == 'advance':
         clock['now'] += op['dt']
-        due = sorted([t for t in timers if not t[2] and t[0] <= clock['now']], key=lambda t: (t[0], t[1]))
-        o['written_before'] = sorted(written)
-        for t in due:
-          if not t[2]:
-            t[2] = True
-            cb, t[3] = t[3], None
-            cb()
-        settle()
-      else:
-        # the broker answers the listed requests (each at most once) and flushes all the replies in ONE segment:
-        # they are all readable when the receive loop wakes up
-        tos = op['to'] if isinstance(op['to'], list) else [op['to']]
-        chunk = b''
-        o['datas'] = []
-        o['tos'] = []
-        for kk in tos:
-          f = frame_of.get(kk)
-          if f is None or kk not in written or kk in replied:
-            continue
+        sign = -1 if case.get('tie') == 'lifo' else 1
+        while True:                  # also the timers scheduled by callbacks while firing
+          due = sorted([t for t in timers if not t[2] and t[0] <= clock['now']], key=lambda t: (t[0], sign * t[1]))
+          if not due:
+            break
+          t = due[0]
+          t[2] = True
+          cb, t[3] = t[3], None
+          ctx.append('timer')
+          raised0 = state['cb_raised']
           try:
-            data = _broker_reply(f, kk)
-          except (ParseError, IndexError, KeyError):
-            continue
-          replied.add(kk)
-          o['datas'].append(data.hex())
-          o['tos'].append(kk)
-          chunk += struct.pack('!i', len(data)) + data
-        if chunk:
-          sock.to_client.put(chunk)
+            cb()
+          except (Exception, gevent.Timeout) as e:
+            log.append(['tx', type(e).__name__, state['cb_raised'] > raised0])
+          finally:
+            ctx.pop()
+        settle()
+      elif op['op'] == 'reply':
+        tos = op['to'] if isinstance(op['to'], list) else [op['to']]
+        chunks = {}
+        for kk in tos:
+          c = min(specs.get(kk, {}).get('conn', 0), nconn - 1)
+          d = socks[c].reply_for(kk)
+          if d is not None:
+            chunks[c] = chunks.get(c, b'') + struct.pack('!i', len(d)) + d
+        for c, chunk in sorted(chunks.items()):
+          n = op.get('split')
+          pieces = [chunk[i:i + n] for i in range(0, len(chunk), n)] if n else [chunk]
+          socks[c].sending = True
+          try:
+            for pc in pieces:
+              socks[c].to_client.put(pc)
+              if op.get('slow'):
+                settle()
+          finally:
+            socks[c].sending = False
+          for pc in socks[c].deferred:
+            socks[c].to_client.put(pc)
+          socks[c].deferred = []
+        settle()
+      elif op['op'] == 'reopen':
+        c = min(op.get('conn', 0), nconn - 1)
+        if True:
+          ctx.append('close')
+          raised0 = state['cb_raised']
+          try:
+            transports[c].Close()
+          except (Exception, gevent.Timeout) as e:
+            log.append(['cx', type(e).__name__, state['cb_raised'] > raised0])
+          finally:
+            ctx.pop()
           settle()
-      o['now'] = clock['now']
-      o['queued'] = [x.hex() for x in queued[nq:]]
-      o['written'] = [x.hex() for x in sock.received[nr:]]
-      o['written_k'] = note_written(nr)
-      o['delivered'] = [canon_delivery(k, m) for k, m in deliveries[nd:]]
-      out.append(o)
-    return {'ops': out, 'wire_ok': sock.raw == b''.join(sock.received) + sock.wbuf, 'unframed': sock.wbuf.hex()}
+          log.append(['life', c])
+          make_conn(c)              # a closed mux transport cannot be opened again: the pool builds a new sink stack
+          settle()
+      out.append({'now': clock['now'], 'log': log[n0:]})
+    wire_ok = all(s_.raw == s_.framed + s_.wbuf for s_ in socks)
+    return {'ops': out, 'wire_ok': wire_ok, 'unframed': ''.join(s_.wbuf.hex() for s_ in socks)}
   finally:
+    for tr in transports:
+      try:
+        tr.Close()
+      except (Exception, gevent.Timeout):
+        pass
     try:
-      if transport is not None:
-        transport.Close()
       settle()
-    except Exception:
+    except (Exception, gevent.Timeout):
       pass
     ssink.GLOBAL_TIMER_QUEUE, ssink.time, msink.Queue = saved
+    try:
+      hub.exception_stream = saved_stream
+    except Exception:
+      pass
 
 
 def run_impl(case):
@@ -1504,10 +1721,11 @@ def monitor(case, obs):
       elif not _value_matches(obs.get('value'), want):
         v.append(('response-decoded-wrong', 'decoded %s, broker encoded %s' % (C.canon(obs.get('value'))[:300], C.canon(want)[:300])))
   elif k == 'route':
-    pend = {}
+    pends = {}
     cidb = _cid_bytes(case.get('cid'))
     for i, (op, o) in enumerate(zip(case['ops'], obs['ops'])):
       where = 'op %d: ' % i
+      pend = pends.setdefault(o.get('conn', 0), {})
       if o.get('o') == 'anomaly':
         v.append(('route-anomaly', where + str({kk: vv for kk, vv in o.items() if kk != 'data'})))
         continue
@@ -1576,73 +1794,112 @@ def monitor(case, obs):
             v.append(('route-delivered-unknown', where + 'reply with correlation id %d (no such pending request) delivered to caller %r' % (corr, o['k'])))
   elif k == 'transport':
     cidb = _cid_bytes(case.get('cid'))
+    nconn = case.get('conns', 1)
+    specs = {}
+    for op in case['ops']:
+      if op['op'] == 'send':
+        specs[op['k']] = op
+        if op.get('then'):
+          specs[op['then']['k']] = dict(op['then'], conn=op.get('conn', 0))
     info = {}
     result = {}
-    outstanding = {}          # correlation id -> request outstanding at the broker
+    outstanding = [dict() for _ in range(nconn)]     # per connection: correlation id -> request outstanding at the broker
     replied = set()
+    lost = set()                                      # requests whose connection was closed under them
     if not obs.get('wire_ok', True) or obs.get('unframed'):
       v.append(('wire-framing', 'bytes written to the socket are not a sequence of size-prefixed frames (%d stray bytes)' % (len(obs.get('unframed', '')) // 2)))
+
+    def want_of(j):
+      q = info[j]
+      return {'produce': [[q['topic'].hex(), q['p']['partition'], 0, 1000 + j]]}
     for i, (op, o) in enumerate(zip(case['ops'], obs['ops'])):
       where = 'op %d: ' % i
       now = o['now']
-      before = dict(result)
-      if 'exc' in o:
-        v.append(('request-rejected', where + 'AsyncProcessRequest raised %s' % o['exc']))
-      if op['op'] == 'send':
-        p = op['call']['put']
-        topic, payloads = expand(p['topic']), [expand(x) for x in p['payloads']]
-        adm, _b = _put_admissible(topic, payloads, p['acks'], p['partition'])
-        info[op['k']] = {'topic': topic, 'payloads': payloads, 'p': p, 'adm': adm, 'tag': o.get('tag'),
-                         'deadline': None if op.get('timeout') is None else now + op['timeout']}
-      for kk, fh in zip(o['written_k'], o['written']):
-        frame = bytes.fromhex(fh)
-        if kk is None or kk not in info:
-          v.append(('wire-unknown-frame', where + 'a frame that no request queued was written'))
-          continue
-        q = info[kk]
-        _check_frame_put(v, frame, q['tag'], cidb, q['topic'], q['payloads'], q['p']['acks'], q['p']['partition'], where)
-        corr = int.from_bytes(frame[8:12], 'big', signed=True)
-        if corr in outstanding and outstanding[corr] != kk:
-          v.append(('corr-id-reused-in-flight', where + 'request %d was written with correlation id %d while request %d with the same id is still '
-                    'outstanding at the broker (it owes a reply)' % (kk, corr, outstanding[corr])))
-        outstanding[corr] = kk
-        q['corr'] = corr
-      if op['op'] == 'reply':
-        for kk, dh in zip(o['tos'], o['datas']):
+      before = set(result)
+      emitted = []
+      closing = min(op.get('conn', 0), nconn - 1) if op['op'] == 'reopen' else None
+      for ev in o['log']:
+        t = ev[0]
+        if t == 's':
+          _t, c, kk, at = ev
+          sp = specs[kk]
+          p = sp['call']['put']
+          topic, payloads = expand(p['topic']), [expand(x) for x in p['payloads']]
+          adm, _b = _put_admissible(topic, payloads, p['acks'], p['partition'])
+          dl = None
+          if not sp.get('deadline0') and sp.get('timeout') is not None:
+            dl = at + sp['timeout']
+          info[kk] = {'topic': topic, 'payloads': payloads, 'p': p, 'adm': adm, 'tag': None, 'deadline': dl, 'conn': c,
+                      'while_closing': closing == c}
+        elif t == 'q':
+          _t, c, kk, fh, tag = ev
+          if kk in info:
+            info[kk]['tag'] = tag
+        elif t == 'w':
+          _t, c, kk, fh = ev
+          frame = bytes.fromhex(fh)
+          if kk is None or kk not in info:
+            v.append(('wire-unknown-frame', where + 'a frame that is not the queued frame of any request was written'))
+            continue
+          q = info[kk]
+          _check_frame_put(v, frame[:], q['tag'], cidb, q['topic'], q['payloads'], q['p']['acks'], q['p']['partition'], where)
+          corr = int.from_bytes(frame[8:12], 'big', signed=True)
+          if corr in outstanding[c] and outstanding[c][corr] != kk:
+            v.append(('corr-id-reused-in-flight', where + 'request %d was written with correlation id %d while request %d with the same id is still '
+                      'outstanding at the broker (it owes a reply)' % (kk, corr, outstanding[c][corr])))
+          outstanding[c][corr] = kk
+        elif t == 'b':
+          _t, c, kk, dh = ev
           corr = int.from_bytes(bytes.fromhex(dh)[:4], 'big', signed=True)
           replied.add(kk)
-          if outstanding.get(corr) == kk:
-            del outstanding[corr]
-      for d in o['delivered']:
-        kk = d['k']
-        if kk not in info:
-          v.append(('route-delivered-unknown', where + 'result for unknown caller %r' % kk))
-          continue
-        if kk in result:
-          v.append(('caller-duplicate-result', where + 'caller %d received a second result %s' % (kk, C.canon(d)[:200])))
-          continue
-        result[kk] = d
-        q = info[kk]
-        if d.get('err') == 'TimeoutError':
-          if q['deadline'] is None or q['deadline'] > now:
-            v.append(('timeout-spurious', where + 'caller %d got TimeoutError at %.3f, deadline %r' % (kk, now, q['deadline'])))
-        elif 'err' in d:
-          if q['adm']:
-            v.append(('request-rejected', where + 'caller %d got error %s for a serialisable request' % (kk, d['err'])))
-        else:
-          want = {'produce': [[q['topic'].hex(), q['p']['partition'], 0, 1000 + kk]]}
-          if d.get('value') != want or kk not in replied:
-            other = [j for j, qq in info.items() if j != kk and d.get('value') == {'produce': [[qq['topic'].hex(), qq['p']['partition'], 0, 1000 + j]]}]
-            if other:
-              v.append(('route-wrong-recipient', where + 'caller %d received the reply the broker generated for request %d: %s' %
-                        (kk, other[0], C.canon(d.get('value'))[:200])))
-            else:
-              v.append(('response-decoded-wrong', where + 'caller %d received %s, broker encoded %s' % (kk, C.canon(d.get('value'))[:200], C.canon(want)[:200])))
-      if op['op'] == 'reply':
-        for kk, dh in zip(o['tos'], o['datas']):
-          if kk not in before and kk not in result:
-            v.append(('route-not-delivered', where + 'the broker replied to request %d (correlation id %d) but its caller, still waiting, received nothing' %
-                      (kk, int.from_bytes(bytes.fromhex(dh)[:4], 'big', signed=True))))
+          emitted.append((kk, corr))
+          if outstanding[c].get(corr) == kk:
+            del outstanding[c][corr]
+        elif t == 'life':
+          c = ev[1]
+          lost.update(j for j in outstanding[c].values())
+          lost.update(j for j, q in info.items() if q['conn'] == c and j not in result)
+          outstanding[c] = {}
+          closing = None
+        elif t == 'x':
+          _t, kk, exc, by_cb = ev
+          if not by_cb:
+            v.append(('request-rejected', where + 'AsyncProcessRequest raised %s for request %r' % (exc, kk)))
+        elif t == 'tx':
+          if not ev[2]:
+            v.append(('timer-action-raised', where + 'the deadline action raised %s' % ev[1]))
+        elif t == 'd':
+          _t, kk, via, d, was_written = ev
+          if kk not in info:
+            v.append(('route-delivered-unknown', where + 'result for unknown caller %r' % kk))
+            continue
+          if kk in result:
+            v.append(('caller-duplicate-result', where + 'caller %d received a second result %s' % (kk, C.canon(d)[:200])))
+            continue
+          result[kk] = d
+          q = info[kk]
+          if via == 'close':
+            if 'err' not in d:
+              v.append(('route-wrong-recipient', where + 'caller %d received a value while its connection was being closed' % kk))
+          elif d.get('err') == 'TimeoutError':
+            if q['deadline'] is None or q['deadline'] > now:
+              v.append(('timeout-spurious', where + 'caller %d got TimeoutError at %.3f, deadline %r' % (kk, now, q['deadline'])))
+          elif 'err' in d:
+            if q['adm'] and not q['while_closing']:
+              v.append(('request-rejected', where + 'caller %d got error %s for a serialisable request' % (kk, d['err'])))
+          else:
+            want = want_of(kk)
+            if d.get('value') != want or kk not in replied:
+              other = [j for j in info if j != kk and d.get('value') == want_of(j)]
+              if other:
+                v.append(('route-wrong-recipient', where + 'caller %d received the reply the broker generated for request %d: %s' %
+                          (kk, other[0], C.canon(d.get('value'))[:200])))
+              else:
+                v.append(('response-decoded-wrong', where + 'caller %d received %s, broker encoded %s' % (kk, C.canon(d.get('value'))[:200], C.canon(want)[:200])))
+      for kk, corr in emitted:
+        if kk not in before and kk not in result:
+          v.append(('route-not-delivered', where + 'the broker replied to request %d (correlation id %d) but its caller, still waiting, received nothing' %
+                    (kk, corr)))
       if op['op'] == 'advance':
         for kk, q in info.items():
           if q['deadline'] is not None and q['deadline'] <= now and kk not in result:
@@ -1775,9 +2032,9 @@ def to_coq(case, obs):
     return '%s %s %s %s %s %s' % ('CProduceResp' if k == 'presp' else 'CMetadataResp', r, _bl(_corr_bytes(case)), _bl(raw),
                                   _z(case['mtype']), _oreply(obs))
   if k == 'route':
-    ops = []
-    exp = []
+    per = {}
     for op, o in zip(case['ops'], obs['ops']):
+      ops, exp = per.setdefault(o.get('conn', 0), ([], []))
       if o.get('o') == 'anomaly':
         return 'CRoute [] [] [ODrop]'                   # impossible in the model: forces a divergence
       if op['op'] == 'send':
@@ -1805,58 +2062,86 @@ def to_coq(case, obs):
           exp.append('ODrop')
         else:
           exp.append('OReplyRaise')
-    return 'CRoute %s %s %s' % (_cid(case.get('cid')), C.lst(ops), C.lst(exp))
+    return ['CRoute %s %s %s' % (_cid(case.get('cid')), C.lst(ops), C.lst(exp)) for _c, (ops, exp) in sorted(per.items())] or None
   if k == 'transport':
-    ops = []
-    exp = []
-    tags = {}
-    calls = {}
-    for op, o in zip(case['ops'], obs['ops']):
-      if 'exc' in o:
-        exp.append('VRaise')
+    nconn = case.get('conns', 1)
+    specs = {}
+    for op in case['ops']:
       if op['op'] == 'send':
-        p = op['call']['put']
-        ct = _call_put(expand(p['topic']), [expand(x) for x in p['payloads']], p['acks'], p['partition'])
-        tags[op['k']] = o.get('tag') if isinstance(o.get('tag'), int) else 0
-        dl = list(o['delivered'])
-        if len(o['queued']) == 1:
-          ops.append('TOp (RSend %s %s %s)' % (_z(op['k']), _z(tags[op['k']]), ct))
-          exp.append('VSent %s' % _bl(bytes.fromhex(o['queued'][0])))
-        elif dl and dl[0].get('err') == 'TimeoutError':
-          d = dl.pop(0)
-          ops.append('TTimeout %s' % _z(d['k']))
-          exp.append('VTimeout %s' % _z(d['k']))
-        elif dl and 'err' in dl[0]:
-          d = dl.pop(0)
-          ops.append('TOp (RSend %s %s %s)' % (_z(op['k']), _z(0), ct))
-          exp.append('VSerError %s' % _z(d['k']))
-        for d in dl:                                  # anything else is not in the model: forces a divergence
-          exp.append('VRaise')
-        for _x in o['queued'][1:]:
-          exp.append('VRaise')
-      elif op['op'] == 'advance':
-        for d in o['delivered']:
-          if d.get('err') == 'TimeoutError':
-            if d['k'] in o['written_before']:
-              ops.append('TTimeout %s' % _z(d['k']))
-            else:
-              ops.append('TUnsent %s %s' % (_z(d['k']), _z(tags.get(d['k'], 0))))
-            exp.append('VTimeout %s' % _z(d['k']))
+        specs[op['k']] = op
+        if op.get('then'):
+          specs[op['then']['k']] = dict(op['then'], conn=op.get('conn', 0))
+    streams = [[[], []] for _ in range(nconn)]      # per connection, current life: (ops, expected)
+    terms = []
+    queued = {}                                      # k -> tag once its frame was queued
+    conn_of = {}
+
+    def call_term(kk):
+      p = specs[kk]['call']['put']
+      return _call_put(expand(p['topic']), [expand(x) for x in p['payloads']], p['acks'], p['partition'])
+
+    def flush(c):
+      ops, exp = streams[c]
+      if ops or exp:
+        terms.append('CTransport %s %s %s' % (_cid(case.get('cid')), C.lst(ops), C.lst(exp)))
+      streams[c] = [[], []]
+    evs = []
+    for op, o in zip(case['ops'], obs['ops']):
+      closing = op['op'] == 'reopen'
+      for ev in o['log']:
+        if ev[0] == 'life':
+          closing = False
+        elif closing:
+          if ev[0] == 's':
+            conn_of[ev[2]] = ev[1]
+          continue                                   # what happens while a connection is shut down is not in the model
+        evs.append(ev)
+    i = 0
+    while i < len(evs):
+      ev = evs[i]
+      t = ev[0]
+      i += 1
+      if t == 's':
+        conn_of[ev[2]] = ev[1]
+      elif t == 'q':
+        _t, c, kk, fh, tag = ev
+        if kk is None or c is None:
+          return 'CTransport [] [] [VRaise]'         # not in the model: forces a divergence
+        queued[kk] = tag if isinstance(tag, int) else 0
+        streams[c][0].append('TOp (RSend %s %s %s)' % (_z(kk), _z(queued[kk]), call_term(kk)))
+        streams[c][1].append('VSent %s' % _bl(bytes.fromhex(fh)))
+      elif t == 'p':
+        _t, c, dh = ev
+        streams[c][0].append('TOp (RReply %s)' % _bl(bytes.fromhex(dh)))
+        if i < len(evs) and evs[i][0] == 'd' and evs[i][2] == 'reply':
+          d = evs[i]
+          i += 1
+          streams[c][1].append('VDeliver %s %s' % (_z(d[1]), _oreply(d[3])))
+        else:
+          streams[c][1].append('VNothing')
+      elif t == 'd':
+        _t, kk, via, d, was_written = ev
+        c = conn_of.get(kk, 0)
+        if via == 'close':
+          continue
+        if d.get('err') == 'TimeoutError' and via in ('timer', 'send'):
+          if kk in queued and not was_written:
+            streams[c][0].append('TUnsent %s %s' % (_z(kk), _z(queued[kk])))
           else:
-            exp.append('VRaise')
-        for _x in o['queued']:
-          exp.append('VRaise')
-      else:
-        dl = list(o['delivered'])
-        for kk, dh in zip(o['tos'], o['datas']):      # replies are processed in the order they were read
-          ops.append('TOp (RReply %s)' % _bl(bytes.fromhex(dh)))
-          if dl and dl[0]['k'] == kk:
-            exp.append('VDeliver %s %s' % (_z(kk), _oreply(dl.pop(0))))
-          else:
-            exp.append('VNothing')
-        for d in dl:
-          exp.append('VRaise')
-    return 'CTransport %s %s %s' % (_cid(case.get('cid')), C.lst(ops), C.lst(exp))
+            streams[c][0].append('TTimeout %s' % _z(kk))
+          streams[c][1].append('VTimeout %s' % _z(kk))
+        elif 'err' in d and via == 'send' and kk not in queued:
+          streams[c][0].append('TOp (RSend %s %s %s)' % (_z(kk), _z(0), call_term(kk)))
+          streams[c][1].append('VSerError %s' % _z(kk))
+        else:
+          streams[c][1].append('VRaise')             # a result the model has no step for: forces a divergence
+      elif t == 'life':
+        flush(ev[1])
+      elif t == 'x' and not ev[3]:
+        streams[conn_of.get(ev[1], 0)][1].append('VRaise')
+    for c in range(nconn):
+      flush(c)
+    return terms or None
   raise ValueError(k)
 
 
@@ -1875,7 +2160,7 @@ def nontrivial(case, obs):
   if k == 'route':
     return any(o.get('o') in ('deliver', 'drop') for o in obs['ops'])
   if k == 'transport':
-    return any(o['delivered'] for o in obs['ops'])
+    return any(e[0] == 'd' for o in obs['ops'] for e in o['log'])
   return False
 
 
@@ -1920,6 +2205,8 @@ def stats(cases, obs):
     elif k == 'route':
       if c.get('seq'):
         out['route:sequence:%s' % c['seq']] += 1
+      out['route:connections:%d' % c.get('conns', 1)] += 1
+      out['route:same-message-object-resent'] += sum(1 for op in c['ops'] if op.get('same_as') is not None)
       for x in o.get('ops', []):
         out['route:%s' % x.get('o')] += 1
         if x.get('o') == 'deliver':
@@ -1927,22 +2214,37 @@ def stats(cases, obs):
     elif k == 'crc':
       out['crc'] += 1
     elif k == 'transport':
-      done = set()
-      wr = set()
+      out['transport:connections:%d' % c.get('conns', 1)] += 1
       for op, x in zip(c['ops'], o.get('ops', [])):
-        wr.update(kk for kk in x['written_k'] if kk is not None)
-        for d in x['delivered']:
-          if d.get('err') == 'TimeoutError':
-            out['transport:timeout:%s' % ('at-call' if op['op'] == 'send' else 'in-flight' if d['k'] in x.get('written_before', []) else 'unsent')] += 1
-          elif 'err' in d:
-            out['transport:ser-error'] += 1
-          else:
-            out['transport:reply-delivered'] += 1
-          done.add(d['k'])
+        evs = x['log']
+        nb = sum(1 for e in evs if e[0] == 'b')
+        nd = sum(1 for e in evs if e[0] == 'd' and e[2] == 'reply')
         if op['op'] == 'reply':
-          out['transport:late-reply-absorbed'] += max(0, len(x['datas']) - len(x['delivered']))
-          if len(x['datas']) > 1:
-            out['transport:replies-in-one-segment:%d' % min(len(x['datas']), 3)] += 1
-        if op['op'] == 'send' and x['queued'] and any(d.get('err') == 'TimeoutError' for y in o['ops'] for d in y['delivered']):
-          pass
+          out['transport:late-reply-absorbed'] += max(0, nb - nd)
+          if nb > 1:
+            out['transport:replies-in-one-segment:%d' % min(nb, 3)] += 1
+          if nb and op.get('split'):
+            out['transport:reply-split:%s' % ('slow' if op.get('slow') else 'burst')] += 1
+        if op['op'] == 'send' and nb:
+          out['transport:broker-replied-inside-write'] += 1
+        if op['op'] == 'reopen':
+          out['transport:reopen'] += 1
+          out['transport:reopen:pending-failed'] += sum(1 for e in evs if e[0] == 'd' and e[2] == 'close')
+        for j, e in enumerate(evs):
+          if e[0] == 'd':
+            d = e[3]
+            if e[2] == 'close':
+              pass
+            elif d.get('err') == 'TimeoutError':
+              out['transport:timeout:%s' % ('at-call' if e[2] == 'send' else 'in-flight' if e[4] else 'unsent')] += 1
+            elif 'err' in d:
+              out['transport:ser-error'] += 1
+            else:
+              out['transport:reply-delivered'] += 1
+            if j + 1 < len(evs) and evs[j + 1][0] == 's':
+              out['transport:reentrant-send-from-callback:%s' % e[2]] += 1
+          elif e[0] in ('x', 'tx') and e[-1]:
+            out['transport:callback-raised:%s' % ('send' if e[0] == 'x' else 'timer')] += 1
+      if any(sp.get('raises') for sp in c['ops'] if sp['op'] == 'send'):
+        out['transport:cases-with-raising-callback'] += 1
   return {'branch_distribution': dict(sorted(out.items())), 'produce_payload_count_histogram': dict(npay)}
